@@ -108,7 +108,7 @@ CLAIMED = {
    technique='contract-based deductive verification of run_program and the entry functions + bounded native stand-in for _Subprocess.run / main exit status'),
  'C18': dict(level='other', design='6.C18',
    text='Log-input half by contract: the reading loop raises nothing but UnicodeDecodeError and only for a strict decoder; all three input modes must establish a total decoder - this obligation failed at all three call sites on the pinned tree (undecodable bytes aborted the tool), a genuine defect repaired by a fix: commit; connections are closed by cleanup. '
-        'Matcher half: every Matcher.matches override is proved to raise nothing and write nothing (defining contracts shared with C05); that matcher.parse raises only RuntimeError and that an accepted matcher can be printed, simplified and evaluated is a bounded stand-in (generated strings over the matcher alphabet, arbitrary Unicode, documented-grammar expressions). '
+        'Matcher half: every Matcher.matches override is proved to raise nothing and write nothing (defining contracts shared with C05); the scanners of the matcher parser (_find_closing_brace, _split_on, _split_pair, _split_peren_at_end, _is_letter, _parse_int_matcher, _parse_generation_matcher, _parse_obj_id_matcher) are proved to raise nothing but RuntimeError (no index error on any text, the bracket table is always hit, the generation letters handed to letter_id_to_number satisfy its precondition); for the rest of the recursive-descent parser, that matcher.parse raises only RuntimeError and that an accepted matcher can be printed, simplified and evaluated is a bounded stand-in (generated strings over the matcher alphabet, arbitrary Unicode, documented-grammar expressions). '
         'Command half: Controller.process_command on generated printable command lines (all command words, abbreviations, wl prefixes, arguments) raises nothing and responds - bounded stand-in.',
    note='Mixed: discharged obligations for the reading loop, the three input modes and matches(); bounded stand-ins (not proof) for the recursive-descent parser, str/simplify and command dispatch. Escape sequences in typed commands are outside C18 (printable lines) - see C17. MemoryError, signals, broken output pipes are outside the claim.',
    technique='contract-based deductive verification (raises clauses, reader precondition at call sites); native replay'),
